@@ -28,15 +28,22 @@ TEXT = {
         "technique": "Lean 4 proof over the saturating update model + model/code differential replay",
     },
     "C01": {
-        "level": "Proof (partial, being extended): extracted tables/salts/pairings/thresholds = frozen reference "
-                 "(tables, decide in the kernel); reference tables justified independently (permutation, growth "
-                 "law, bit-length coverage); official digest reproduced by the reference algorithm inside the "
-                 "kernel (kat_lovak) and 14 repository vectors at run time. The full refinement "
-                 "generate = Spec.tlsh is under construction; until it lands the equality of model and reference "
-                 "algorithm is checked at run time on every probed input (driver column `self`).",
+        "level": "Proof: for every valid variant, option setting (32), build configuration of the generator "
+                 "(incl. low-memory buckets, debug assertions), byte string of ANY length (incl. >= 4 GiB) and any "
+                 "chunking, the model of new/update*/finalize_with_options at the constants extracted from the "
+                 "current source returns exactly Spec.tlsh: same hash or same rejection in the same order "
+                 "(generate_eq_spec, generate_chunked_eq_spec; via update_ideal, windows, wrapping bucket counts = "
+                 "counts mod 2^32, quartiles for every select_nth_unstable implementation meeting its contract, "
+                 "CLZ-narrowed length search = least index, naive aggregation = dibit formula); extracted "
+                 "tables/salts/pairings/thresholds = frozen reference (tables); reference tables justified "
+                 "independently; official digest reproduced inside the kernel (kat_lovak) and 14 repository vectors "
+                 "at run time. Correspondence: generated inputs x all 32 options x chunkings, injected states "
+                 "(counts >= 2^24, 2^31, wrapped; adversarial f32 pairs), three configurations.",
         "note": COMMON_NOTE + " f32 Q-ratio arithmetic is an exact-integer model validated against hardware on "
-                "injected bucket states; select_nth_unstable by contract.",
-        "technique": "Lean 4 proof (decide over extracted tables, kernel KAT) + spec/model/code differential replay",
+                "injected bucket states (the Spec uses the same model); select_nth_unstable by contract; SIMD "
+                "aggregation back ends are related to the naive one under C07.",
+        "technique": "Lean 4 refinement proof model = reference algorithm (+ kernel decide over extracted tables, "
+                     "kernel KAT) + spec/model/code differential replay",
     },
     "C10": {
         "level": "Proof: for every generator state (reachable or injected), parameter set, configuration and "
